@@ -142,6 +142,25 @@ def check_case(rng, impl, quick):
                 return "instantiation by call with %s: parameter %s matched as %r, expected %r" % (label, p, r2.get(p), vals[p]), dict(desc, values2=vals)
         if sorted(r2) != sorted(r3) or any(abs(complex(r2[k]) - complex(r3[k])) > 0 for k in r2):
             return "matching twice gives different answers: %r then %r" % (r2, r3), dict(desc, values2=vals)
+    # the program produced by CALLING the template, then given another target or version in place (its own metadata, not the template's)
+    try:
+        inst_e = t(**{p: sigma[p] for p in sigma})
+    except Exception:  # noqa: BLE001
+        inst_e = None
+    if inst_e is not None:
+        for what in ("target", "version"):
+            ie = t(**{p: sigma[p] for p in sigma})
+            if what == "target":
+                ie.target["name"] = "fock" if ie.target.get("name") != "fock" else "gaussian"
+            else:
+                ie._version = "9.9"
+            try:
+                match_template(t, ie)
+                return "an instance whose %s was changed in place is still accepted as a match (template %s now: %r)" % (what, what, t.target if what == "target" else t.version), dict(desc)
+            except TemplateError:
+                pass
+            except Exception as e:  # noqa: BLE001
+                return "an instance whose %s was changed in place raises %s instead of TemplateError" % (what, type(e).__name__), dict(desc)
     # single structural edits must be rejected
     edits = []
     if iops:
